@@ -60,7 +60,11 @@ func (r *Run) runLemmas(opts SolverOpts, fuel int) []*ObResult {
 			res.Detail = err.Error()
 			continue
 		}
-		SolveAll([]*Query{q}, l.Fuel, opts, func(*Query) []*Term { return nil })
+		lopts := opts
+		if lopts.TimeoutS < 40 {
+			lopts.TimeoutS = 40 // pure string lemmas: few, but some need one particular back end for several seconds
+		}
+		SolveAll([]*Query{q}, l.Fuel, lopts, func(*Query) []*Term { return nil })
 		res.Millis = q.Millis
 		res.Solver = q.Solver
 		switch q.Result {
